@@ -30,7 +30,7 @@ def gen(chk, module, name, consts, invariants, *, emit="Emit", workers=None, tim
                 return
             seen.add(k)
         recs.append(v)
-    res = vkit.tlc(module, cfg, print_sink=sink, coverage=coverage, workers=workers or min(8, vkit.NCPU),
+    res = vkit.tlc(module, cfg, print_sink=sink, coverage=coverage, workers=min(workers or 8, int(os.environ.get('VERIF_WORKERS', vkit.NCPU))),
                    timeout=timeout)
     chk.add_tlc(name, res)
     if coverage and need:
@@ -198,9 +198,6 @@ def uri_known(case, msg):
 
 
 # ------------------------------------------------------------------ C42
-KEY_TAG_OVERREAD = "evtag-decode-tag-reads-sixth-byte"
-
-
 def tag_rt_case(r):
     return {"op": "tagrt", "items": r["items"]}
 
@@ -210,20 +207,14 @@ def tag_rt_expected(r):
 
 
 def tag_dec_case(r):
-    return {"op": "tagdec", "b": r["b"], "_tag": "overread" if r.get("overread") else ""}
+    return {"op": "tagdec", "b": r["b"]}
 
 
 def tag_dec_expected(r):
-    e = {k: v for k, v in r.items() if k not in ("b", "overread")}
+    e = {k: v for k, v in r.items() if k != "b"}
     if e.get("tot") == -1:
         e["tot"] = {"_any": True}      # fails, or a length >= 2^24 whose sum the model does not compute
     return {"r": e, "splitdiff": 0}
-
-
-def tag_known(case, msg):
-    if case.get("_tag") == "overread" and "heap-buffer-overflow" in msg and "in decode_tag_internal" in msg:
-        return KEY_TAG_OVERREAD
-    return None
 
 
 # ------------------------------------------------------------------ C41
